@@ -15,6 +15,8 @@ func chance(t *rapid.T, label string, oneIn int) bool {
 	return rapid.IntRange(0, oneIn-1).Draw(t, label) == 0
 }
 
+var caseFamily = [][]byte{[]byte("example.test"), []byte("EXAMPLE.test"), []byte("Example.Test"), []byte("eXample.test"), []byte("a"), []byte("A"), []byte("dv.example.test"), []byte("DV.example.test")}
+
 var strTags = []byte{0x0c, 0x13, 0x16, 0x1e, 0x14, 0x1a, 0x12}
 
 func genDisplayText(t *rapid.T) []byte {
@@ -33,6 +35,10 @@ func GenGeneralName(t *rapid.T) []byte {
 	case 1:
 		return der.Enc(0x81, pickOf(t, "mail", dergen.StringBodies))
 	case 2, 9, 10:
+		if chance(t, "dnsfamily", 3) {
+			// names equal up to letter case: code that folds case in one place and not in another sees them
+			return der.Enc(0x82, pickOf(t, "dnscase", caseFamily))
+		}
 		return der.Enc(0x82, pickOf(t, "dns", dergen.StringBodies))
 	case 3:
 		return der.Enc(0xa3, der.Seq(der.Printable("x400")))
